@@ -36,7 +36,7 @@ ASSUMPTIONS = [
 def GATES(tier):
     return [("constructions_judged", 1500), ("hierarchies", 60), ("handwritten_parent_calls_compared", 200), ("post_init_checked", 300), ("unknown_kw_rejected", 100), ("overflow_collected", 50),
             ("nonconforming_rejected", 100), ("key_positional", 30), ("key_missing_rejected", 10), ("two_parents", 10), ("plain_grandchild", 10), ("spec_grandchild", 10), ("init_false_parent", 5),
-            ("redeclared_attr", 20), ("redefaulted_attr", 20), ("parent_post_init", 10), ("key_redefaulted", 3), ("plain_middle", 5), ("colliding_parents", 20), ("key_default_factory", 8), ("bare_redeclaration", 10), ("overflow_with_wildcard_dependant", 10), ("plain_subclass_post_init", 10), ("diamond_cases", 10), ("keyed_parent_ctor_cases", 20), ("falsy_keyword_cases", 50), ("overflow_inherited", 2), ("overflow_switched_off", 2), ("key_falsy_default", 2)]
+            ("redeclared_attr", 20), ("redefaulted_attr", 20), ("parent_post_init", 10), ("key_redefaulted", 3), ("plain_middle", 5), ("colliding_parents", 20), ("key_default_factory", 8), ("bare_redeclaration", 10), ("overflow_with_wildcard_dependant", 10), ("plain_subclass_post_init", 10), ("diamond_cases", 10), ("keyed_parent_ctor_cases", 20), ("falsy_keyword_cases", 50), ("overflow_inherited", 2), ("overflow_switched_off", 2), ("key_falsy_default", 2), ("key_restated", 2), ("overflow_own_name_cases", 20)]
 
 
 class H:
@@ -134,6 +134,9 @@ class H:
             # the child merely re-defaults the inherited key (no annotation): the key is then optional for the child
             c_attrs["k"] = {"default": "ck", "init": True, "annotated": False, "style": "lit"}
             self.features.add("key_redefaulted")
+            if rng.random() < 0.5:
+                self._key_restated = True  # ... and names the key again in its own decorator
+                self.features.add("key_restated")
         c_attrs.update(new_attrs("c", rng.randint(0, 2), allow_init_false=False))
         self._star_candidates = [n for n, a in c_attrs.items() if n.startswith("c") and a["default"] is not None]
         c_bases = ["A", "B"] if two else ["A"]
@@ -259,6 +262,8 @@ class H:
                 args = [f"bootstrap={not self.lazy}"]
                 if c.get("key"):
                     args.append(f"key={c['key']!r}")
+                elif name == "C" and getattr(self, "_key_restated", False):
+                    args.append("key='k'")
                 if c.get("overflow") == "OFF":
                     args.append("init_overflow_attr=None")
                 elif c.get("overflow"):
@@ -550,6 +555,10 @@ def run(ctx, params):
                 # falsy values are values like any others
                 cases.append(({n: ("" if h.attr_info(cname, n).get("type") == "str" else 0) for n in init_names[:3]}, "kw" if key else None, "conforming"))
                 ctx.count("falsy_keyword_cases")
+            if overflow and c["ctor"] != "handwritten":
+                # a keyword named like the overflow attribute itself is an overflow keyword like any other
+                cases.append(({overflow: 5, "zz_unknown": 1}, "kw" if key else None, "unknown"))
+                ctx.count("overflow_own_name_cases")
             cases.append(({"zz_unknown": 1}, "kw" if key else None, "unknown"))
             cases.append(({"zz_unknown": 1, "yy_unknown": "s", **({init_names[0]: "five" if h.attr_info(cname, init_names[0]).get("type") == "str" else 5} if init_names else {})}, "kw" if key else None, "unknown"))
             for n in init_false[:1]:
